@@ -20,6 +20,12 @@ void runRange(const Scn &scn, Out &out)
             Range r;
             r = Range(p[1].toLongLong(), p[2].toLongLong(), p[3].toLongLong());
             out.obs << report(r);
+        } else if (p[0] == "q" || p[0] == "qs") {      // an object that was asked about another range first, then assigned
+            Range r(p[1].toLongLong(), p[2].toLongLong(), p[3].toLongLong());
+            (void) report(r);
+            if (p[0] == "q") r = Range(p[4].toLongLong(), p[5].toLongLong(), p[6].toLongLong());
+            else r = Range(QString::fromLatin1(unhx(p[4])), p[5].toLongLong());
+            out.obs << report(r);
         } else if (p[0] == "s") {
             Range r(QString::fromLatin1(unhx(p[1])), p[2].toLongLong());
             out.obs << report(r);
